@@ -1084,4 +1084,422 @@ theorem rpm_equals_rp (d : Device) :
           exact ElemAgrees_resolve d oid e (rpmRefs_agrees d oid refs es h1 e he)
         · exact ih more h2 p hmem
 
+
+/-! ### selectors and whole-request failures -/
+
+def isUnknownProperty : Except Refusal (List Tag) → Bool
+  | .error .unknownProperty => true
+  | _ => false
+
+theorem readToElem_res (o : Object) (pid : Nat) (idx : Option Nat) (e : RElem)
+    (h : readToElem (some o) pid idx = .ok e) :
+    e.pid = pid ∧ (e.res = .err .unknownProperty ↔ isUnknownProperty (readObject o pid idx) = true) := by
+  unfold readToElem at h
+  simp only [readToAny_eq] at h
+  cases hr : readObject o pid idx with
+  | ok tags => simp [hr] at h; subst h; simp [isUnknownProperty]
+  | error r =>
+    simp only [hr] at h
+    split at h
+    · simp at h; subst h
+      cases r <;> simp [isUnknownProperty]
+    · simp at h
+
+/-- the selectors expand to the property sets of the table: `all` / `required`
+    / `optional` report, in table order, exactly the properties the selector
+    filter keeps (everything but propertyList; not optional; optional) and that
+    ReadProperty does not answer with unknown-property -/
+theorem selector_ids (o : Object) (sel : Nat) (idx : Option Nat) :
+    ∀ (props : List Slot) (es : List RElem), expandSel o sel idx props = .ok es →
+      es.map (·.pid) =
+        (props.filter fun s => selects sel s.d && !isUnknownProperty (readObject o s.d.id idx)).map (·.d.id) := by
+  intro props
+  induction props with
+  | nil => intro es h; simp [expandSel] at h; subst h; rfl
+  | cons s rest ih =>
+    intro es h
+    unfold expandSel at h
+    split at h
+    · rename_i hsel
+      cases he : readToElem (some o) s.d.id idx with
+      | error r => simp [he] at h
+      | ok e0 =>
+        simp only [he] at h
+        cases hrest : expandSel o sel idx rest with
+        | error r => simp [hrest] at h
+        | ok es' =>
+          simp only [hrest] at h
+          obtain ⟨hpid, hiff⟩ := readToElem_res o s.d.id idx e0 he
+          split at h
+          · rename_i hunk
+            simp at h; subst h
+            have := hiff.mp hunk
+            simp [List.filter_cons, hsel, this, ih es' hrest]
+          · rename_i hunk
+            simp at h; subst h
+            have : isUnknownProperty (readObject o s.d.id idx) = false := by
+              cases hb : isUnknownProperty (readObject o s.d.id idx) with
+              | false => rfl
+              | true => exact absurd (hiff.mpr hb) hunk
+            simp [List.filter_cons, hsel, this, ih es' hrest, hpid]
+    · rename_i hsel
+      simp [List.filter_cons, hsel, ih es h]
+
+/-- `required` and `optional` partition `all` -/
+theorem selects_partition (d : PropDesc) :
+    selects pidAll d = (selects pidRequired d || selects pidOptional d) ∧
+    (selects pidRequired d && selects pidOptional d) = false := by
+  unfold selects
+  have h1 : (pidRequired = pidAll) = False := by decide
+  have h2 : (pidOptional = pidAll) = False := by decide
+  have h3 : (pidAll = pidRequired) = False := by decide
+  have h4 : (pidAll = pidOptional) = False := by decide
+  have h5 : (pidRequired = pidOptional) = False := by decide
+  have h6 : (pidOptional = pidRequired) = False := by decide
+  cases d.optional <;> cases (d.id != pidPropertyList) <;> simp [h1, h2, h3, h4, h5, h6]
+
+theorem expandSel_error (o : Object) (sel : Nat) (idx : Option Nat) :
+    ∀ (props : List Slot) (r : Refusal), expandSel o sel idx props = .error r → r.isExec = false := by
+  intro props
+  induction props with
+  | nil => intro r h; simp [expandSel] at h
+  | cons s rest ih =>
+    intro r h
+    unfold expandSel at h
+    split at h
+    · cases he : readToElem (some o) s.d.id idx with
+      | error r' =>
+        simp [he] at h; subst h
+        unfold readToElem at he
+        simp only at he
+        split at he
+        · simp at he
+        · split at he
+          · simp at he
+          · rename_i hne; simp at he; subst he; simpa using hne
+      | ok e0 =>
+        simp only [he] at h
+        cases hrest : expandSel o sel idx rest with
+        | error r' => simp [hrest] at h; subst h; exact ih _ hrest
+        | ok es' => simp only [hrest] at h; split at h <;> simp at h
+    · exact ih r h
+
+/-- when the whole ReadPropertyMultiple request is refused, the refusal is one
+    that cannot be embedded (a Reject or operational-problem raised while
+    encoding a value) — never an unknown-object / unknown-property /
+    array-index error, which are always embedded -/
+theorem rpm_error_not_embeddable (d : Device) :
+    ∀ (specs : List (Oid × List PropRef)) (r : Refusal),
+      rpmService d specs = .error r → r.isExec = false := by
+  have hElem : ∀ (o : Option Object) pid idx r, readToElem o pid idx = .error r → r.isExec = false := by
+    intro o pid idx r h
+    unfold readToElem at h
+    split at h
+    · simp at h
+    · split at h
+      · simp at h
+      · split at h
+        · simp at h
+        · rename_i hne; simp at h; subst h; simpa using hne
+  have hRef : ∀ (o : Option Object) ref r, rpmRef o ref = .error r → r.isExec = false := by
+    intro o ref r h
+    unfold rpmRef at h
+    split at h
+    · split at h
+      · simp at h
+      · exact expandSel_error _ _ _ _ _ h
+    · cases he : readToElem o ref.pid ref.idx with
+      | error r' => simp [he] at h; subst h; exact hElem _ _ _ _ he
+      | ok e => simp [he] at h
+  have hRefs : ∀ (o : Option Object) refs r, rpmRefs o refs = .error r → r.isExec = false := by
+    intro o refs
+    induction refs with
+    | nil => intro r h; simp [rpmRefs] at h
+    | cons ref rest ih =>
+      intro r h
+      unfold rpmRefs at h
+      cases h1 : rpmRef o ref with
+      | error r' => simp [h1] at h; subst h; exact hRef _ _ _ h1
+      | ok es =>
+        cases h2 : rpmRefs o rest with
+        | error r' => simp [h1, h2] at h; subst h; exact ih _ h2
+        | ok more => simp [h1, h2] at h
+  intro specs
+  induction specs with
+  | nil => intro r h; simp [rpmService] at h
+  | cons sp rest ih =>
+    obtain ⟨oid, refs⟩ := sp
+    intro r h
+    unfold rpmService at h
+    simp only at h
+    cases h1 : rpmRefs (findObj (resolveOid d oid) d.objs) refs with
+    | error r' => simp [h1] at h; subst h; exact hRefs _ _ _ h1
+    | ok es =>
+      cases h2 : rpmService d rest with
+      | error r' => simp [h1, h2] at h; subst h; exact ih _ h2
+      | ok more => simp [h1, h2] at h
+
+
+/-! ## commandable objects (priorities 1..16) -/
+
+theorem findSlot_setSlot_ne (pid pid' : Nat) (v : PVal) (props : List Slot) (h : pid ≠ pid') :
+    findSlot pid (setSlot pid' v props) = findSlot pid props := by
+  induction props with
+  | nil => rfl
+  | cons x rest ih =>
+    unfold setSlot
+    by_cases hx : x.d.id = pid'
+    · simp only [hx, ↓reduceIte]
+      unfold findSlot
+      have : ¬ pid' = pid := fun h' => h h'.symm
+      simp [hx, this]
+    · simp only [hx, ↓reduceIte]
+      unfold findSlot
+      simp only [ih]
+
+theorem elemValid_self (e e' : ElemTy) (it : Item) (h : elemValid e e' it = true) :
+    elemValid e e it = true := by
+  cases e with
+  | atomic tag lo hi =>
+    cases e' with
+    | atomic tag' lo' hi' =>
+      simp only [elemValid, atomValid, Bool.and_eq_true, decide_eq_true_eq] at h ⊢
+      exact ⟨trivial, h.2⟩
+    | anyAtomic => simp [elemValid, atomValid] at h
+    | cons ty => simp [elemValid, atomValid] at h
+  | anyAtomic => simp [elemValid]
+  | cons ty => simp [elemValid]
+
+/-- the Commandable mix-in as `Commandable(datatype)` sets it up (a decidable
+    predicate on the object): three distinct properties; presentValue writable
+    and scalar; priorityArray read-only, an array of 16 slots each Null or a
+    valid value of the datatype; relinquishDefault a valid value -/
+def cmdOK (o : Object) (c : Cmd) : Bool :=
+  c.pa != c.pv && c.rd != c.pv && c.pa != c.rd &&
+  match findSlot c.pv o.props, findSlot c.pa o.props, findSlot c.rd o.props with
+  | some pv, some pa, some rd =>
+    pv.d.custom == .std && pv.d.mutable && pa.d.custom == .std && !pa.d.mutable && pa.d.dt.isArray &&
+    match pv.d.dt, pa.v, rd.v with
+    | .scalar e, .arr slots, .one rit =>
+        slots.length == 16 && elemValid e e rit &&
+        slots.all (fun it => it == .enc [nullTag] || elemValid e e it)
+    | _, _, _ => false
+  | _, _, _ => false
+
+/-- unpacked form of `cmdOK` -/
+theorem cmdOK_elim (o : Object) (c : Cmd) (h : cmdOK o c = true) :
+    c.pa ≠ c.pv ∧ c.rd ≠ c.pv ∧ c.pa ≠ c.rd ∧
+    ∃ pv pa rd e slots rit,
+      findSlot c.pv o.props = some pv ∧ findSlot c.pa o.props = some pa ∧
+      findSlot c.rd o.props = some rd ∧
+      pv.d.custom = .std ∧ pv.d.mutable = true ∧ pa.d.custom = .std ∧ pa.d.mutable = false ∧
+      pa.d.dt.isArray = true ∧
+      pv.d.dt = .scalar e ∧ pa.v = .arr slots ∧ rd.v = .one rit ∧ slots.length = 16 ∧
+      elemValid e e rit = true ∧
+      (∀ it ∈ slots, it = .enc [nullTag] ∨ elemValid e e it = true) := by
+  unfold cmdOK at h
+  simp only [Bool.and_eq_true, bne_iff_ne, ne_eq] at h
+  obtain ⟨⟨⟨h1, h2⟩, h3⟩, h4⟩ := h
+  refine ⟨h1, h2, h3, ?_⟩
+  split at h4
+  · rename_i pv pa rd hpv hpa hrd
+    simp only [Bool.and_eq_true, beq_iff_eq, Bool.not_eq_true'] at h4
+    obtain ⟨⟨⟨⟨⟨a1, a2⟩, a3⟩, a4⟩, a5⟩, a6⟩ := h4
+    split at a6
+    · rename_i e slots rit hdt hpav hrdv
+      simp only [Bool.and_eq_true, beq_iff_eq, List.all_eq_true, Bool.or_eq_true] at a6
+      obtain ⟨⟨b1, b2⟩, b3⟩ := a6
+      exact ⟨pv, pa, rd, e, slots, rit, hpv, hpa, hrd, a1, a2, a3, a4, a5, hdt, hpav, hrdv, b1, b2, b3⟩
+    · simp at a6
+  · simp at h4
+
+theorem highest_valid (e : ElemTy) (slots : List Item) (rit : Item)
+    (hr : elemValid e e rit = true)
+    (hs : ∀ it ∈ slots, it = .enc [nullTag] ∨ elemValid e e it = true) :
+    ∃ hit, highest slots (.one rit) = .one hit ∧ elemValid e e hit = true := by
+  unfold highest
+  cases hf : slots.find? (fun it => it != .enc [nullTag]) with
+  | none => exact ⟨rit, rfl, hr⟩
+  | some it =>
+    refine ⟨it, rfl, ?_⟩
+    have hmem := List.mem_of_find?_eq_some hf
+    have hne := List.find?_some hf
+    rcases hs it hmem with h | h
+    · simp [h] at hne
+    · exact h
+
+/-- once the priority array is consistent, the tail of
+    `Commandable.WriteProperty` cannot refuse -/
+theorem cmdSettle_ok (d : Device) (o1 : Object) (c : Cmd) (h : cmdOK o1 c = true) :
+    (cmdSettle d o1 c).2 = .ok () := by
+  obtain ⟨_, _, _, pv, pa, rd, e, slots, rit, hpv, hpa, hrd, hcu, hmut, _, _, _, hdt, hpav, hrdv, _, hr, hs⟩ :=
+    cmdOK_elim o1 c h
+  obtain ⟨hit, hhi, hval⟩ := highest_valid e slots rit hr hs
+  unfold cmdSettle
+  simp only [hpa, hpv, hrd, hpav, hrdv, hhi]
+  split
+  · rfl
+  · simp only [hdt]
+    have hw : propWrite d o1 pv (.one e hit) none = .ok (some (.one hit)) := by
+      simp [propWrite, hcu, stdWrite, hmut, ladder, hdt, hval, assign, Except.map]
+    simp [objWritePlain, hpv, hw]
+
+/-- changing one slot of the priority array to Null or to a valid value keeps
+    the object consistent -/
+theorem cmdOK_setSlot (o : Object) (c : Cmd) (h : cmdOK o c = true)
+    (pa : Slot) (slots : List Item) (pv : Slot) (e : ElemTy)
+    (hpa : findSlot c.pa o.props = some pa) (hpav : pa.v = .arr slots)
+    (hpv : findSlot c.pv o.props = some pv) (hdt : pv.d.dt = .scalar e)
+    (k : Nat) (it : Item) (hit : it = .enc [nullTag] ∨ elemValid e e it = true) :
+    cmdOK { o with props := setSlot c.pa (.arr (slots.set k it)) o.props } c = true := by
+  obtain ⟨n1, n2, n3, pv', pa', rd, e', slots', rit, hpv', hpa', hrd, hcu, hmut, hcu2, hmut2, harr, hdt',
+    hpav', hrdv, hlen, hr, hs⟩ := cmdOK_elim o c h
+  rw [hpv] at hpv'; simp only [Option.some.injEq] at hpv'; subst hpv'
+  rw [hpa] at hpa'; simp only [Option.some.injEq] at hpa'; subst hpa'
+  rw [hdt] at hdt'; simp only [DT.scalar.injEq] at hdt'; subst hdt'
+  rw [hpav] at hpav'; simp only [PVal.arr.injEq] at hpav'; subst hpav'
+  unfold cmdOK
+  have f1 : findSlot c.pv (setSlot c.pa (.arr (slots.set k it)) o.props) = some pv := by
+    rw [findSlot_setSlot_ne _ _ _ _ (fun h' => n1 h'.symm)]; exact hpv
+  have f2 : findSlot c.pa (setSlot c.pa (.arr (slots.set k it)) o.props) =
+      some { pa with v := .arr (slots.set k it) } := findSlot_setSlot _ _ _ _ hpa
+  have f3 : findSlot c.rd (setSlot c.pa (.arr (slots.set k it)) o.props) = some rd := by
+    rw [findSlot_setSlot_ne _ _ _ _ n3.symm]; exact hrd
+  simp only [f1, f2, f3, hdt, hrdv]
+  simp only [Bool.and_eq_true, bne_iff_ne, ne_eq, beq_iff_eq, Bool.not_eq_true', List.all_eq_true,
+    Bool.or_eq_true, List.length_set]
+  refine ⟨⟨⟨n1, n2⟩, n3⟩, ⟨⟨⟨⟨hcu, hmut⟩, hcu2⟩, hmut2⟩, harr⟩, ⟨hlen, hr⟩, ?_⟩
+  intro x hx
+  rcases List.mem_or_eq_of_mem_set hx with hx | hx
+  · exact hs x hx
+  · subst hx; exact hit
+
+
+theorem objWritePlain_pure (d : Device) (o : Object) (pid : Nat) (v : WVal) (idx : Option Nat)
+    (e : Refusal) (h : (objWritePlain d o pid v idx).2 = .error e) :
+    (objWritePlain d o pid v idx).1 = o := by
+  rcases objWritePlain_cases d o pid v idx with ⟨e', he⟩ | ⟨s', _, hcase⟩
+  · rw [he]
+  · rcases hcase with ⟨_, hobjw⟩ | ⟨nv, _, hobjw⟩ <;> (rw [hobjw] at h; simp at h)
+
+theorem cmdSlotWrite_pure (d : Device) (o : Object) (c : Cmd) (v : WVal) (i : Int) (e : Refusal)
+    (hok : cmdOK o c = true) (h : (cmdSlotWrite d o c v i).2 = .error e) :
+    (cmdSlotWrite d o c v i).1 = o := by
+  obtain ⟨n1, n2, n3, pv, pa, rd, el, slots, rit, hpv, hpa, hrd, hcu, hmut, hcu2, hmut2, harr, hdt,
+    hpav, hrdv, hlen, hr, hs⟩ := cmdOK_elim o c hok
+  unfold cmdSlotWrite at h ⊢
+  by_cases hi0 : i = 0
+  · simp [hi0]
+  · by_cases hir : i < 1 ∨ i > 16
+    · simp [hi0, hir]
+    · simp only [hi0, hir, ↓reduceIte, hpa, hpv, hpav] at h ⊢
+      cases v with
+      | null =>
+        simp only at h ⊢
+        have hok1 := cmdOK_setSlot o c hok pa slots pv el hpa hpav hpv hdt (i.toNat - 1)
+          (.enc [nullTag]) (Or.inl rfl)
+        have := cmdSettle_ok d _ c hok1
+        rw [this] at h; simp at h
+      | many e' its => simp
+      | one e' it =>
+        simp only [hdt] at h ⊢
+        by_cases hv : elemValid el e' it = true
+        · simp only [hv, ↓reduceIte] at h ⊢
+          have hok1 := cmdOK_setSlot o c hok pa slots pv el hpa hpav hpv hdt (i.toNat - 1)
+            it (Or.inr (elemValid_self _ _ _ hv))
+          have := cmdSettle_ok d _ c hok1
+          rw [this] at h; simp at h
+        · simp [hv]
+
+theorem cmdWholeWrite_pure (d : Device) (o : Object) (c : Cmd) (v : WVal)
+    (hok : cmdOK o c = true) : cmdWholeWrite d o c v = (o, .error .writeAccessDenied) := by
+  obtain ⟨n1, n2, n3, pv, pa, rd, el, slots, rit, hpv, hpa, hrd, hcu, hmut, hcu2, hmut2, harr, hdt,
+    hpav, hrdv, hlen, hr, hs⟩ := cmdOK_elim o c hok
+  have hden : objWritePlain d o c.pa v none = (o, .error .writeAccessDenied) := by
+    have : propWrite d o pa v none = .error .writeAccessDenied := by
+      simp [propWrite, hcu2, stdWrite, hmut2, Except.map]
+    simp [objWritePlain, hpa, this]
+  simp [cmdWholeWrite, hden]
+
+/-- `Commandable.WriteProperty` is all-or-nothing on a consistent object: the
+    only refusals come before the slot is touched -/
+theorem objWriteCmd_pure (d : Device) (o : Object) (c : Cmd) (pid : Nat) (v : WVal)
+    (idx : Option Nat) (prio : Option Int) (e : Refusal) (hok : cmdOK o c = true)
+    (h : (objWriteCmd d o c pid v idx prio).2 = .error e) :
+    (objWriteCmd d o c pid v idx prio).1 = o := by
+  unfold objWriteCmd at h ⊢
+  by_cases hpv : pid = c.pv
+  · simp only [hpv, ↓reduceIte] at h ⊢
+    exact cmdSlotWrite_pure d o c v _ e hok h
+  · by_cases hpa : pid = c.pa
+    · subst hpa
+      simp only [hpv, ↓reduceIte] at h ⊢
+      cases idx with
+      | none => simp [cmdWholeWrite_pure d o c v hok]
+      | some i => exact cmdSlotWrite_pure d o c v _ e hok h
+    · simp only [hpv, hpa, ↓reduceIte] at h ⊢
+      exact objWritePlain_pure d o _ v idx e h
+
+/-- the state hypothesis of the all-or-nothing theorem: every object that
+    carries the Commandable mix-in is consistent (`cmdOK`); nothing is asked of
+    plain objects -/
+def deviceOK (d : Device) : Bool :=
+  d.objs.all fun p => match p.2.cmd with
+    | none => true
+    | some c => cmdOK p.2 c
+
+theorem findObj_mem (oid : Oid) (objs : List (Oid × Object)) (o : Object)
+    (h : findObj oid objs = some o) : (oid, o) ∈ objs := by
+  induction objs with
+  | nil => simp [findObj] at h
+  | cons x rest ih =>
+    obtain ⟨k, x⟩ := x
+    unfold findObj at h
+    split at h
+    · rename_i hk; simp at h; subst h; subst hk; simp
+    · exact List.mem_cons_of_mem _ (ih h)
+
+/-- **refused_write_pure** — all-or-nothing, every branch, every object kind:
+    whenever `do_WritePropertyRequest` answers anything but SimpleAck, the
+    device is exactly as before.  The only hypothesis is that commandable
+    objects are consistent (`deviceOK`, decidable, preserved by every write:
+    `deviceOK_preserved`). -/
+theorem refused_write_pure_all (d : Device) (r : WriteReq) (e : Refusal)
+    (hdev : deviceOK d = true) (href : (writeService d r).2 = .error e) :
+    (writeService d r).1 = d := by
+  unfold writeService at href ⊢
+  cases hobj : findObj r.oid d.objs with
+  | none => simp
+  | some o =>
+    simp only [hobj] at href ⊢
+    cases hpre : objRead o r.pid r.idx with
+    | error e' => simp
+    | ok rv0 =>
+      cases rv0 with
+      | none => simp
+      | whole _ | len _ | elem _ =>
+        simp only [hpre] at href ⊢
+        cases hs : findSlot r.pid o.props with
+        | none => simp
+        | some s =>
+          simp only [hs] at href ⊢
+          cases hc : castOut s.d.dt r.idx r.value with
+          | error e' => simp
+          | ok v =>
+            simp only [hc] at href ⊢
+            have hpure : (objWrite d o r.pid v r.idx r.prio).1 = o := by
+              unfold objWrite at href ⊢
+              cases hcmd : o.cmd with
+              | none =>
+                simp only [hcmd] at href ⊢
+                exact objWritePlain_pure d o _ v _ e href
+              | some c =>
+                simp only [hcmd] at href ⊢
+                have hmem := findObj_mem _ _ _ hobj
+                have : cmdOK o c = true := by
+                  have := (List.all_eq_true.mp hdev) _ hmem
+                  simpa [hcmd] using this
+                exact objWriteCmd_pure d o c _ v _ _ e this href
+            simp [hpure, setObj_self _ _ _ hobj]
+
 end BacVerif.C15
